@@ -749,6 +749,12 @@ func main() {
 					panic(err)
 				}
 				runRaw(o, d, "replay")
+			case "member":
+				var d MemberDesc
+				if err := json.Unmarshal(in.Desc, &d); err != nil {
+					panic(err)
+				}
+				runMembers(o, []MemberDesc{d}, "replay")
 			case "soak":
 				var d SoakDesc
 				if err := json.Unmarshal(in.Desc, &d); err != nil {
@@ -763,6 +769,11 @@ func main() {
 	}
 	r := hx.NewRand(f.Seed)
 	designedRaw(o, r.Split())
+	// real meta services: join / remove / leave + re-join (monitor, both tiers)
+	runMembers(o, memberScenarios(0), "designed")
+	if f.Tier == "thorough" {
+		runMembers(o, memberScenarios(4), "designed")
+	}
 	nSnap := f.N * 6 / 10
 	for i := 0; i < nSnap; i++ {
 		n := 8 + r.Intn(40)
